@@ -700,8 +700,25 @@ def _distinct_bv(pop):
     X, u, beta, gebv, f = pop_truth(pop)
     return len({tuple(r) for r in gebv.tolist()}), len({r[0] for r in gebv.tolist()})
 
-def gen_factory(rng, which, vf=None):
-    homo = which in ("embv", "embvmat")
+EMBV_PROT = {"SelfCross": 1, "TwoWayCross": 2, "TwoWayDHCross": 2}     # mating protocol -> number of parents
+
+def _per_taxon(rng, n, choices, form=None):
+    """an argument the library accepts as "scalar or per-taxon array": a scalar, or a list with UNEQUAL entries (n >= 2) whose
+    first / last entries are not always the largest (stale rows of a shared buffer, an index taken from the wrong taxon)"""
+    form = form or rng.choice(["scalar", "array", "array"])
+    if form == "scalar" or n < 2: return rng.choice(choices)
+    for _ in range(50):
+        v = [rng.choice(choices) for _ in range(n)]
+        if len(set(v)) > 1: break
+    else:
+        v = [choices[0]] * (n - 1) + [choices[-1]]
+    style = rng.random()
+    if style < 0.35: v.sort()                      # the first taxon has the fewest
+    elif style < 0.7: v.sort(reverse=True)         # the first taxon has the most
+    return v
+
+def gen_factory(rng, which, vf=None, form=None):
+    homo = which in ("embv", "embvmat") and rng.random() < 0.4
     pop = gen_pop(rng, homozygous=homo)
     if which in ("uc", "uc_xmap"):
         # enough taxa for the cross, and parents whose breeding values differ (a contribution-weighted mean then differs from a plain mean)
@@ -728,8 +745,13 @@ def gen_factory(rng, which, vf=None):
         nchr = len(set(pop["chrgrp"]))
         args["nhaploblk"] = rng.randint(nchr, min(p, nchr + 2))
     if which == "gb": args["nbestfndr"] = rng.randint(1, n)
-    if which == "embv": args.update(nrep=rng.choice([1, 2, 3]), nprogeny=rng.choice([1, 2]), unique=rng.random() < 0.5)
-    if which == "embvmat": args.update(nrep=rng.choice([1, 2]), nprogeny=rng.choice([1, 3]))
+    if which == "embv":
+        prot = rng.choice(["SelfCross", "SelfCross", "TwoWayCross", "TwoWayDHCross"])
+        args.update(prot=prot, nparent=EMBV_PROT[prot], nmating=rng.choice([1, 1, 2]), nrep=rng.choice([1, 2, 3]), nprogeny=rng.choice([1, 2, 3]),
+                    unique=rng.random() < 0.5, seed=rng.randrange(2 ** 31), homozygous=homo)
+    if which == "embvmat":
+        args.update(nrep=_per_taxon(rng, n, [1, 2, 3, 4], form), nprogeny=_per_taxon(rng, n, [1, 2, 3, 5], form), seed=rng.randrange(2 ** 31), homozygous=homo,
+                    dtype=rng.choice(["int64", "int64", "int32"]))
     if which in ("pafd", "pau", "mogs"):
         args["callable"] = rng.random() < 0.5
         args["mkrwt"] = [[rng.randint(0, 16) / 8 for _ in range(t)] for _ in range(p)]
@@ -796,8 +818,19 @@ def run_factory(case):
         from pybrops.model.embvmat.DenseExpectedMaximumBreedingValueMatrix import DenseExpectedMaximumBreedingValueMatrix as M
         g, gmod, bv = build_pop(pop, True)
         def f():
-            m = M.from_gmod(gmod, g, A["nprogeny"], A["nrep"])
-            return {"mat": _arr(m.unscale()), "taxa": [str(v) for v in m.taxa], "taxa_grp": _arr(m.taxa_grp)}
+            import importlib
+            mod = importlib.import_module(M.__module__)
+            calls = []
+            old_dh, old_rng = mod.dense_dh, mod.global_prng
+            def spy(geno, sel, xoprob, rng_):
+                r = old_dh(geno, sel, xoprob, rng_)
+                calls.append({"x": numpy.asarray(sel).astype(int).tolist(), "prog": numpy.asarray(r).astype(int).tolist()})
+                return r
+            as_arg = lambda v: numpy.array(v, dtype=A.get("dtype", "int64")) if isinstance(v, list) else int(v)
+            mod.dense_dh, mod.global_prng = spy, numpy.random.default_rng(A.get("seed", 1))
+            try: m = M.from_gmod(gmod, g, as_arg(A["nprogeny"]), as_arg(A["nrep"]))
+            finally: mod.dense_dh, mod.global_prng = old_dh, old_rng
+            return {"mat": _arr(m.unscale()), "taxa": [str(v) for v in m.taxa], "taxa_grp": _arr(m.taxa_grp), "reps": calls}
         out["obj"] = _try(f); return out
     encs = ("Subset",) if fam in SUBSET_ONLY else ENCODINGS
     for enc in encs:
@@ -862,9 +895,21 @@ def run_factory(case):
                     pr = cls.from_gmat_gpmod(g, w, tg, gmod, **_space(enc, n, nobj=t))
                     return {"geno": _arr(pr.geno), "ploidy": int(pr.ploidy), "mkrwt": _arr(pr.mkrwt), "tfreq": _arr(pr.tfreq)}
                 if which == "embv":
-                    from pybrops.breed.prot.mate.SelfCross import SelfCross
-                    pr = cls.from_pgmat_gpmod(1, 1, A["nprogeny"], A["nrep"], A["unique"], g, gmod, SelfCross(), **_space(enc, n, nobj=t))
-                    return {"embv": _arr(pr.embv), "xmap": _arr(pr.decn_space_xmap)}
+                    import importlib
+                    pname = A.get("prot", "SelfCross")
+                    Base = getattr(importlib.import_module("pybrops.breed.prot.mate." + pname), pname)
+                    calls = []
+                    class Spy(Base):                       # records every simulated progeny matrix the factory asks for
+                        def mate(self, pgmat, xconfig, nmating, nprogeny, miscout=None, **kw):
+                            r = super().mate(pgmat=pgmat, xconfig=xconfig, nmating=nmating, nprogeny=nprogeny, miscout=miscout, **kw)
+                            calls.append({"x": numpy.asarray(xconfig).astype(int).ravel().tolist(), "prog": numpy.asarray(r.mat).astype(int).tolist()})
+                            return r
+                    npar = EMBV_PROT[pname]
+                    nx = len(_embv_xmap(n, npar, A["unique"]))
+                    if nx == 0: return {"skip": True}
+                    pr = cls.from_pgmat_gpmod(npar, A.get("nmating", 1), A["nprogeny"], A["nrep"], A["unique"], g, gmod,
+                                              Spy(rng=numpy.random.default_rng(A.get("seed", 1))), **_space(enc, nx, nobj=t))
+                    return {"embv": _arr(pr.embv), "xmap": _arr(pr.decn_space_xmap), "reps": calls}
                 if which == "rand":
                     import importlib
                     from rngscript import Scripted
@@ -906,6 +951,63 @@ def pop_truth(pop):
     c = X.sum(0)[:, None]
     f = numpy.where(u > 0, c / (2 * n), numpy.where(u < 0, (2 * n - c) / (2 * n), 0.0))     # favourable allele frequency; 0 for no effect
     return X, u, beta, gebv, f
+
+def _embv_xmap(n, npar, unique):
+    it = itertools.combinations(range(n), npar) if unique else itertools.combinations_with_replacement(range(n), npar)
+    return [list(v) for v in it]
+
+def _embv_expect(pop, calls, groups, dh):
+    """the definition of the expected maximum breeding value from the progeny the library simulated.
+    groups = [(parents, number of replicates, progeny per replicate)] in the order the factory must work through them.
+    Returns (problems, table of mean-of-maxima per group, breeding values per group/replicate/progeny as Fractions)."""
+    bad = []
+    hap = numpy.array(pop["hap"], dtype=int); u = pop["u"]; beta = pop["beta"]
+    p, t = hap.shape[2], len(beta)
+    if len(calls) != sum(g[1] for g in groups):
+        return ["%d progeny simulations, expected %d (sum of the replicate counts)" % (len(calls), sum(g[1] for g in groups))], None, None
+    table, allbv, k = [], [], 0
+    for gi, (parents, nrep, nprog) in enumerate(groups):
+        reps = []
+        for r in range(nrep):
+            c = calls[k]; k += 1
+            prog = numpy.array(c["prog"], dtype=int)
+            if sorted(set(c["x"])) != sorted(set(parents)) or (len(parents) == 1 and c["x"] != parents * len(c["x"])) or (len(parents) > 1 and c["x"] != parents):
+                bad.append("replicate %d of entry %d simulated from parents %s, expected %s" % (r, gi, c["x"], parents))
+            if prog.ndim != 3 or prog.shape[1] != nprog:
+                bad.append("replicate %d of entry %d has %s progeny, expected %d" % (r, gi, prog.shape[1] if prog.ndim == 3 else "?", nprog)); continue
+            if dh and not numpy.array_equal(prog[0], prog[1]): bad.append("a doubled-haploid progeny of entry %d is not homozygous" % gi)
+            allowed = [set(int(hap[m, i, j]) for m in range(hap.shape[0]) for i in parents) for j in range(p)]
+            if any(int(prog[m, g, j]) not in allowed[j] for m in range(prog.shape[0]) for g in range(prog.shape[1]) for j in range(p)):
+                bad.append("a progeny of entry %d carries an allele none of its parents %s has" % (gi, parents))
+            X = prog.sum(0)
+            reps.append([[sum(F(int(X[g, j])) * F(u[j][q]) for j in range(p)) + F(beta[q]) for q in range(t)] for g in range(prog.shape[1])])
+        if len(reps) != nrep or any(len(b) == 0 for b in reps):
+            table.append(None); allbv.append(reps); continue
+        table.append([sum(max(b[q] for b in bvs) for bvs in reps) / len(reps) for q in range(t)]); allbv.append(reps)
+    return bad, table, allbv
+
+def _embv_groups(case):
+    A = case["args"]; n = len(case["pop"]["labels"])
+    if case["which"] == "embvmat":
+        per = lambda v: v if isinstance(v, list) else [v] * n
+        return [([i], r, g) for i, r, g in zip(range(n), per(A["nrep"]), per(A["nprogeny"]))], True
+    pname = A.get("prot", "SelfCross")
+    return [(x, A["nrep"], A.get("nmating", 1) * A["nprogeny"]) for x in _embv_xmap(n, EMBV_PROT[pname], A["unique"])], pname == "TwoWayDHCross"
+
+def _embv_check(case, o, key, tag):
+    """EMBV table of a factory output against the definition on the recorded progeny"""
+    bad = []
+    groups, dh = _embv_groups(case)
+    probs, table, _ = _embv_expect(case["pop"], o.get("reps", []), groups, dh)
+    bad += ["%s: %s" % (tag, b) for b in probs]
+    if table is None or any(r is None for r in table): return bad or ["%s: progeny simulations do not have the expected shape" % tag]
+    got = numpy.array(_unhex(o[key]), dtype=float)
+    want = numpy.array([[float(v) for v in r] for r in table], dtype=float)
+    if not _near(got, want, 2.0 ** -26):
+        rows = [i for i in range(min(len(got), len(want))) if got.shape == want.shape and not _near(got[i], want[i], 2.0 ** -26)]
+        bad.append("%s: %s != mean over exactly the replicates drawn (%s) of the maximum breeding value of the progeny of each replicate (%s), rows %s"
+                   % (tag, key, [g[1] for g in groups], [g[2] for g in groups], rows))
+    return bad
 
 def pred_factory(case, out):
     which, pop, A = case["which"], case["pop"], case["args"]
@@ -994,16 +1096,20 @@ def pred_factory(case, out):
             chk("mkrwt", numpy.absolute(u) if A["callable"] else numpy.array(A["mkrwt"]), "marker weights")
             chk("tfreq", numpy.where(u > 0, 1.0, 0.0) if A["callable"] else numpy.array(A["tfreq"]), "target frequencies")
         elif which == "embv":
-            xm = [[i] for i in range(n)]
-            if o["xmap"] != xm: bad.append("%s: cross map != one entry per taxon" % tag); continue
-            chk("embv", gebv, "expected maximum breeding value of the selfed (homozygous) parents = their breeding values")
+            pname = A.get("prot", "SelfCross")
+            xm = _embv_xmap(n, EMBV_PROT[pname], A["unique"])
+            if o["xmap"] != xm: bad.append("%s: cross map != expected list of parent tuples" % tag); continue
+            bad += _embv_check(case, o, "embv", tag)
+            if pname == "SelfCross" and A.get("homozygous", True):
+                chk("embv", gebv, "expected maximum breeding value of the selfed (homozygous) parents = their breeding values")
         elif which == "rand": chk("rbv", numpy.array(A["normals"]), "the drawn values in draw order")
         elif which == "wgebvmat":
             w = numpy.where((f == 0) | (f == 1), 1.0, (math.asin(1.0) - numpy.arcsin(numpy.sqrt(f))) / numpy.sqrt(numpy.where((f == 0) | (f == 1), 1.0, f * (1 - f))))
             chk("mat", X @ (u * w), "arcsine-weighted breeding values", 2.0 ** -26)
             if o["taxa"] != taxa or o["taxa_grp"] != pop["grp"]: bad.append("%s: taxa labels / groups not in the population's order" % tag)
         elif which == "embvmat":
-            chk("mat", gebv, "breeding values of the homozygous parents", 2.0 ** -26)
+            bad += _embv_check(case, o, "mat", tag)
+            if A.get("homozygous", True): chk("mat", gebv, "breeding values of the homozygous parents", 2.0 ** -26)
             if o["taxa"] != taxa or o["taxa_grp"] != pop["grp"]: bad.append("%s: taxa labels / groups not in the population's order" % tag)
     seen = []
     for b in bad:
@@ -1018,7 +1124,7 @@ def _qh(a):
 def emit_factory(case, out):
     """factory data evaluated in Coq for the factories with an exact-rational definition"""
     which, pop, A = case["which"], case["pop"], case["args"]
-    if which not in ("gebv_gmat", "gwgebv", "ohv", "opv", "gb", "l1", "uc", "uc_xmap", "pafd", "pau", "mogs", "embv"): return None
+    if which not in ("gebv_gmat", "gwgebv", "ohv", "opv", "gb", "l1", "uc", "uc_xmap", "pafd", "pau", "mogs", "embv", "embvmat"): return None
     if any(isinstance(o, dict) and ("exc" in o or o.get("skip")) for o in out.values()): return None
     n, p, t = len(pop["labels"]), len(pop["chrgrp"]), len(pop["beta"])
     hap = E.lst3(pop["hap"], E.z); u = _ql2(pop["u"]); beta = _ql(pop["beta"])
@@ -1028,11 +1134,24 @@ def emit_factory(case, out):
         if not A["unscale"]: return None
         head += "let g := gebv_def hap u %s %d %d %d in\n  " % (beta, n, p, t)
         parts = ["qclose_ll %s g" % _qh(o["gebv"]) for o in out.values()]
-    elif which == "embv":
-        # selfing homozygous parents: every progeny is the parent, so the expected maximum is the parent's breeding value, one row per cross
-        head += "let g := gebv_def hap u %s %d %d %d in\n  " % (beta, n, p, t)
-        parts = ["qclose_ll %s g" % _qh(o["embv"]) for o in out.values()]
-        parts += ["list_eqb natl_eqb %s (map (fun i => [i]) (seq 0 %d))" % (E.lst2(o["xmap"], E.nat), n) for o in out.values()]
+    elif which in ("embv", "embvmat"):
+        # the model's definition on the breeding values of the progeny the library simulated (recomputed here from the recorded
+        # progeny genotypes): mean over exactly nrep replicates of the maximum over the progeny of the replicate, entry by entry
+        groups, dh = _embv_groups(case)
+        key = "embv" if which == "embv" else "mat"
+        for o in out.values():
+            probs, table, allbv = _embv_expect(pop, o.get("reps", []), groups, dh)
+            if allbv is None: parts.append("false"); continue
+            reps = "[" + "; ".join("[" + "; ".join(E.lst2(bvs, E.q) for bvs in rr) + "]" for rr in allbv) + "]"
+            parts.append("(let reps := %s in qclose_ll %s (embv_def reps %d) && embv_shape_ok reps %s %s)"
+                         % (reps, _qh(o[key]), t, E.lst([g[1] for g in groups], E.nat), E.lst([g[2] for g in groups], E.nat)))
+            if which == "embv":
+                npar = EMBV_PROT[A.get("prot", "SelfCross")]
+                parts.append("list_eqb natl_eqb %s %s" % (E.lst2(o["xmap"], E.nat), E.lst2(_embv_xmap(n, npar, A["unique"]), E.nat)))
+                if npar == 1: parts.append("list_eqb natl_eqb %s (map (fun i => [i]) (seq 0 %d))" % (E.lst2(o["xmap"], E.nat), n))
+                if npar == 2: parts.append("list_eqb natl_eqb %s (if %s then pairs_unique %d else pairs_any %d)" % (E.lst2(o["xmap"], E.nat), E.b(A["unique"]), n, n))
+            if A.get("homozygous") and (which == "embvmat" or A.get("prot", "SelfCross") == "SelfCross"):
+                parts.append("qclose_ll %s (gebv_def hap u %s %d %d %d)" % (_qh(o[key]), beta, n, p, t))
     elif which == "gwgebv":
         if A["alpha"] not in (0.0, 1.0, 2.0): return None
         head += "let g := gwgebv_def hap u %d %d %d %d in\n  " % (int(A["alpha"]), n, p, t)
@@ -1195,7 +1314,11 @@ def describe(case, out):
         return {"kind": k, "family": case["fam"], "k": len(s) if len(s) <= 8 else "49+", "repeats": len(set(s)) < len(s),
                 "candidates": n if n <= 8 else "49+", "guard": case.get("guard", "-"), "obj_trans": case["eval"]["obj"][0][0], "ineq_trans": case["eval"]["ineq"][0][0]}
     if k == "factory":
-        return {"kind": k, "factory": case["which"], "ntaxa": len(case["pop"]["labels"]), "uc_vmat": _vf_short(case["args"].get("vf", "-"))}
+        A = case["args"]
+        return {"kind": k, "factory": case["which"], "ntaxa": len(case["pop"]["labels"]), "uc_vmat": _vf_short(A.get("vf", "-")),
+                "embv": "-" if case["which"] not in ("embv", "embvmat") else "%s/nrep:%s/nprogeny:%s/%s" % (
+                    A.get("prot", "dh"), "array" if isinstance(A["nrep"], list) else "scalar", "array" if isinstance(A["nprogeny"], list) else "scalar",
+                    "homozygous" if A.get("homozygous") else "segregating")}
     return {"kind": k}
 
 def gen_cases(rng, tier):
@@ -1217,6 +1340,10 @@ def gen_cases(rng, tier):
             for vf in sorted(UC_VMAT):
                 for _ in range(2 if q else 10):
                     cases.append(gen_factory(rng, w, vf=vf))
+            continue
+        if w == "embvmat":                            # scalar and per-taxon-array forms of nrep / nprogeny on every run
+            for i in range(10 if q else 60):
+                cases.append(gen_factory(rng, w, form=["array", "array", "scalar", None][i % 4]))
             continue
         for _ in range(6 if q else 40):
             cases.append(gen_factory(rng, w))
